@@ -231,13 +231,15 @@ Definition walk_target (s : sub) : option string :=
 Definition tree_locked (st : state) (t : string) : bool :=
   existsb (fun s => match walk_target s with Some t' => String.eqb t t' | None => false end) (st_subs st).
 
+Definition feed_of (st : state) (w : nat) : list item := nth w (st_feeds st) [].
+
 (** another writer has a write on target [t] in flight *)
 Definition in_flight_other (st : state) (w : nat) (t : string) : bool :=
-  existsb (fun wf : nat * list item =>
-             negb (Nat.eqb (fst wf) w) &&
-             existsb (fun it => match item_target st it with
-                                | Some t' => String.eqb t t' | None => false end) (snd wf))
-          (combine (seq 0 (List.length (st_feeds st))) (st_feeds st)).
+  existsb (fun w' => negb (Nat.eqb w' w) &&
+                     existsb (fun it => match item_target st it with
+                                        | Some t' => String.eqb t t' | None => false end)
+                             (feed_of st w'))
+          (seq 0 (List.length (st_feeds st))).
 
 (** every registered or future query of every subscriber agrees on [p] *)
 Definition agree_on (st : state) (p : path) : bool :=
@@ -270,9 +272,15 @@ Definition set_feed (st : state) (w : nat) (f : list item) : list (list item) :=
   upd_nth w (fun _ => f) (st_feeds st).
 
 (** (new state, result class) of the tree-write part of an operation *)
+Definition target_ok (p : path) : bool :=
+  match p with t :: _ => negb (is_star t) | [] => false end.
+Definition star_free (p : path) : bool := forallb (fun x => negb (is_star x)) p.
+
 Definition write (h : hyps) (st : state) (w : nat) (o : wop) : option (state * wres) :=
   match o with
   | WUpd p v ts =>
+      (* outside the model: no target, or a path element named "*" *)
+      if negb (target_ok p && star_free p) then None else
       if h_agree h && negb (agree_on st p) then None else
       match tlookup p (st_tree st) with
       | Some l =>
@@ -295,6 +303,7 @@ Definition write (h : hyps) (st : state) (w : nat) (o : wop) : option (state * w
                           (st_tree st ++ [(p, l)]) (set_feed st w [ILeaf l]) (st_subs st), WOk)
       end
   | WDel d ts order =>
+      if negb (target_ok d) then None else
       if tree_locked st (target_of d) then None else
       let vs := reorder order (victims st d (fun c => snd c <? ts)) in
       let k0 := List.length (st_dels st) in
@@ -302,6 +311,7 @@ Definition write (h : hyps) (st : state) (w : nat) (o : wop) : option (state * w
                     (remove_paths vs (st_tree st))
                     (set_feed st w (map IDel (seq k0 (List.length vs)))) (st_subs st), WOk)
   | WDelSub d =>
+      if negb (target_ok d) then None else
       if tree_locked st (target_of d) then None else
       let vs := victims st d (fun _ => true) in
       let k0 := List.length (st_dels st) in
